@@ -145,6 +145,8 @@ func runWorker(id, tier string, lo, hi int, out string) int {
 				last, lastT = cur, time.Now()
 			} else if time.Since(lastT) > 90*time.Second {
 				what, _ := explore.Current.Load().(string)
+				fmt.Fprintf(os.Stderr, "watchdog: no progress for 90 s in %s\n", what)
+				pprof.Lookup("goroutine").WriteTo(os.Stderr, 1)
 				writeJSON(out, workerOut{Hang: "no progress for 90 s in execution " + what, WallS: time.Since(start).Seconds()})
 				os.Exit(3)
 			}
@@ -152,6 +154,9 @@ func runWorker(id, tier string, lo, hi int, out string) int {
 			runtime.ReadMemStats(&ms)
 			if ms.HeapAlloc > 6<<30 {
 				what, _ := explore.Current.Load().(string)
+				fmt.Fprintf(os.Stderr, "watchdog: HeapAlloc=%d HeapSys=%d HeapObjects=%d NumGC=%d PauseTotalNs=%d in %s\n", ms.HeapAlloc, ms.HeapSys, ms.HeapObjects, ms.NumGC, ms.PauseTotalNs, what)
+				pprof.Lookup("goroutine").WriteTo(os.Stderr, 1)
+				pprof.Lookup("heap").WriteTo(os.Stderr, 1)
 				writeJSON(out, workerOut{Hang: "heap above 6 GiB in execution " + what, WallS: time.Since(start).Seconds()})
 				os.Exit(3)
 			}
@@ -389,6 +394,17 @@ func runParent(id, tier string) int {
 					continue
 				}
 				if wo.Hang != "" {
+					// a hang or a memory blow-up caused by the code under test is deterministic: it is
+					// reported only if the same chunk does it again
+					hangLog := filepath.Join(outDir(), fmt.Sprintf("%s-worker-hang-%d.log", id, r.lo))
+					os.MkdirAll(filepath.Dir(hangLog), 0o755)
+					os.WriteFile(hangLog, []byte(tail.String()), 0o644)
+					if !retried[r.lo] {
+						retried[r.lo] = true
+						fmt.Fprintf(os.Stderr, "note: worker for scenarios %d..%d reported %q (diagnostics in %s); running the chunk once more\n", r.lo, r.hi, wo.Hang, hangLog)
+						mu.Unlock()
+						goto again
+					}
 					hangs = append(hangs, wo.Hang)
 					mu.Unlock()
 					continue
